@@ -120,8 +120,10 @@ def _case(draw):
         leafs = _leaf_ops(streams, [])
         leafs[draw(st.integers(0, len(leafs) - 1))]["sim"]["fails"] = True
         iterations = draw(st.integers(2, 3))
+    shared = not any(l["sim"].get("fails") for l in _leaf_ops(streams, [])) and draw(st.integers(0, 2)) == 0
     return {
         "kind": "composite",
+        "shared_params": shared,
         "n_clients": n_clients,
         "requests": streams,
         "max_connections": draw(st.sampled_from([None, None, 1, 2])),
@@ -305,6 +307,9 @@ class _CompositeSource:
     def params(self):
         import copy
 
+        if self._params.get("verif-shared"):
+            # what the default ParamSource does: every client, every iteration gets the very same dict object
+            return self._params
         p = copy.deepcopy(self._params)
         # every request (one call of params()) gets a number that its sub-requests carry onto the wire
         _CompositeSource._seq += 1
@@ -334,6 +339,8 @@ def _run_composite(case, n_clients):
     rally_runner.register_runner("composite", rally_runner.Composite(), async_runner=True)
     rally_params.register_param_source_for_name("c18-composite-source", _CompositeSource)
     params = {"requests": case["requests"]}
+    if case.get("shared_params"):
+        params["verif-shared"] = True
     if case["max_connections"] is not None:
         params["max-connections"] = case["max_connections"]
     op = track.Operation("comp", "composite", params=params, param_source="c18-composite-source")
@@ -388,6 +395,13 @@ def _check_composite(case, obs):
             continue
         wires = [x for x in wire_log if x["es_client_id"] == ci]
         # wires of iteration k: those that carry the number of the client's k-th request
+        if case.get("shared_params"):
+            # the clients share one parameter dict, so sub-requests cannot carry a request number: a client's requests follow one another,
+            # each putting the same number of sub-requests on the wire
+            wires.sort(key=lambda x: (x["pc_start"], x["pc_end"]))
+            per_iter = len(wires) // case["iterations"]
+            for i, x in enumerate(wires):
+                x["seq"] = i // per_iter if per_iter else 0
         seqs = sorted({x["seq"] for x in wires})
         if not obs.check(len(seqs) == case["iterations"], "requests-on-the-wire", f"client {ci}: sub-requests of {len(seqs)} requests on the wire, {case['iterations']} iterations"):
             continue
@@ -473,6 +487,8 @@ def _check_composite(case, obs):
     if interesting:
         obs.cls("concurrent-first-end-not-first-start")
     obs.cls("composite")
+    if case.get("shared_params") and n > 1:
+        obs.cls("clients-share-one-params-dict")
     obs.mark_nontrivial(interesting)
 
 
